@@ -144,7 +144,19 @@ func TestRegFixturesReproducibleAndValid(t *testing.T) {
 			}
 			seedsA := a.Seeds()
 			a.Close()
-			if name == "tree" || name == "treesync" || name == "snappy" {
+			heavy := name == "tree" || name == "treesync" || name == "snappy"
+			if heavy && !vstat.Thorough() {
+				// quick tier: the world behind the tree fixtures is built once per run; only deliver its valid messages
+				var ins []In
+				for i := range seedsA {
+					ins = append(ins, In{Base: i, Kind: "valid"})
+				}
+				if _, err := run(Case{Target: name, Fix: uint64(fix), Ins: ins}); err != nil {
+					t.Errorf("%s/%d: delivering the valid messages: %v", name, fix, err)
+				}
+				continue
+			}
+			if heavy {
 				// the template is cached per process; rebuild it from scratch for the comparison
 				treeTplMu.Lock()
 				for k, tp := range treeTpl {
